@@ -806,7 +806,9 @@ func (db *DB) writeToLSM(b *request) error {
 
 	for i, entry := range b.Entries {
 		var err error
-		if entry.skipVlogAndSetThreshold(db.valueThreshold()) {
+		// In InMemory mode there is no value log (b.Ptrs is empty): every value, including one of
+		// exactly ValueThreshold bytes (which Txn.modify accepts), is stored inline.
+		if db.opt.InMemory || entry.skipVlogAndSetThreshold(db.valueThreshold()) {
 			// Will include deletion / tombstone case.
 			err = db.mt.Put(entry.Key,
 				y.ValueStruct{
